@@ -595,6 +595,12 @@ type lcGen struct {
 	level   uint64
 	unit    uint64
 	okTxns  []string // members of groups that succeeded in this block (for duplicates)
+	// accounts / assets written by ACCEPTED groups of the block under construction: the evaluator's block-level cow holds
+	// records for them, which a later child cow may alias
+	tAccts     map[uint64]bool
+	tAssets    map[uint64]bool
+	forceAsset uint64 // directed stream: the next forceN groups are touch-then-fail groups on this asset
+	forceN     int
 }
 
 func (g *lcGen) pick(xs ...uint64) uint64 { return xs[g.r.Intn(len(xs))] }
@@ -920,6 +926,25 @@ func (g *lcGen) goodPay(v *lcView) string {
 	return g.genPay(v)
 }
 
+// a member that is valid in the state v: a payment, or (when assets exist) a reconfigure / transfer / freeze / clawback /
+// opt-in on an asset, preferring assets written earlier in this block
+func (g *lcGen) goodMember(v *lcView) string {
+	if len(v.assets) > 0 && g.r.Chance(45) {
+		aid := v.assets[g.r.Intn(len(v.assets))]
+		for _, a := range v.assets {
+			if g.tAssets[a] && g.r.Chance(50) {
+				aid = a
+			}
+		}
+		reconf, cw, other := g.assetMembers(v, aid)
+		all := append(append(reconf, cw...), other...)
+		if len(all) > 0 {
+			return all[g.r.Intn(len(all))]
+		}
+	}
+	return g.goodPay(v)
+}
+
 func (g *lcGen) genGroup(v *lcView) string {
 	n := 1
 	multi := 25
@@ -941,13 +966,13 @@ func (g *lcGen) genGroup(v *lcView) string {
 	var ts []string
 	failAt := -1
 	if n > 1 && g.r.Chance(70) {
-		failAt = g.r.Intn(n) // the other members are valid payments: the (possibly) failing member and its position vary
+		failAt = g.r.Intn(n) // the other members are valid (payments and asset traffic): the (possibly) failing member and its position vary
 	}
 	for i := 0; i < n; i++ {
 		var t string
 		switch {
 		case failAt >= 0 && i != failAt:
-			t = g.goodPay(v)
+			t = g.goodMember(v)
 		case len(g.okTxns) > 0 && g.r.Chance(3):
 			t = g.okTxns[g.r.Intn(len(g.okTxns))] // duplicate of a committed transaction of this block
 		case i > 0 && g.r.Chance(2):
@@ -1105,6 +1130,215 @@ func (g *lcGen) scriptAssets(v *lcView) []string {
 	if g.r.Chance(50) {
 		one(g.ph("axfer", c) + fmt.Sprintf(",%d,0,0,0,%d", aid, g.pick(a, b))) // close out of a destroyed asset
 	}
+	return out
+}
+
+func lcID(a basics.Address) uint64 {
+	n, err := strconv.ParseUint(lcAddrID(a), 10, 64)
+	if err != nil {
+		return 0
+	}
+	return n
+}
+
+// noteTouched records what an accepted group wrote (ctrBefore = txn counter before the group, for created asset ids)
+func (g *lcGen) noteTouched(op string, ctrBefore uint64) {
+	if len(op) <= 6 {
+		return
+	}
+	for i, t := range strings.Split(op[6:], ";") {
+		f := strings.Split(t, ",")
+		g.tAccts[vh.U(f[1])] = true
+		switch f[0] {
+		case "pay":
+			g.tAccts[vh.U(f[7])] = true
+			g.tAccts[vh.U(f[9])] = true
+		case "acfg":
+			if f[7] == "0" {
+				g.tAssets[ctrBefore+uint64(i)+1] = true
+			} else {
+				g.tAssets[vh.U(f[7])] = true
+			}
+		case "axfer":
+			g.tAssets[vh.U(f[7])] = true
+			g.tAccts[vh.U(f[9])], g.tAccts[vh.U(f[10])], g.tAccts[vh.U(f[11])] = true, true, true
+		case "afrz":
+			g.tAssets[vh.U(f[7])] = true
+			g.tAccts[vh.U(f[8])] = true
+		}
+	}
+}
+
+// mh: member header (valid window, min fee, fresh nonce, group tag placeholder)
+func (g *lcGen) mh(kind string, snd uint64) string {
+	g.nonce++
+	return fmt.Sprintf("%s,%d,%d,%d,%d,%d,GRP", kind, snd, g.minFee, g.round, g.round+10, g.nonce)
+}
+
+// assetMembers builds transactions on asset aid that are valid in the state v: a reconfigure by the manager (a params
+// write: putAssetParams copies the sibling holding of (creator, asset) found through the parents), writers of the CREATOR's
+// holding (transfer out of / into it, freeze toggle, clawback from / to it) and other traffic on the asset.
+func (g *lcGen) assetMembers(v *lcView, aid uint64) (reconf, creatorW, other []string) {
+	p, ok := v.params[aid]
+	if !ok {
+		return
+	}
+	cr := v.creat[aid]
+	mgr, frz, clw, rsv := lcID(p.Manager), lcID(p.Freeze), lcID(p.Clawback), lcID(p.Reserve)
+	if mgr != 0 {
+		r2 := g.pick(rsv, g.user(), 0)
+		reconf = append(reconf, g.mh("acfg", mgr)+fmt.Sprintf(",%d,0,0,0,%d,%d,%d,%d", aid, mgr, r2, frz, clw))
+	}
+	crH, crOK := v.hold[[2]uint64{cr, aid}]
+	for id := uint64(1); id <= 6; id++ {
+		h, isHolder := v.hold[[2]uint64{id, aid}]
+		if id == cr {
+			continue
+		}
+		if !isHolder {
+			if g.balWP(v.acct[id]) >= 3*g.minBal+10*g.minFee {
+				other = append(other, g.mh("axfer", id)+fmt.Sprintf(",%d,0,0,%d,0", aid, id)) // opt-in
+			}
+			continue
+		}
+		if crOK && !crH.Frozen && !h.Frozen && crH.Amount > 0 {
+			creatorW = append(creatorW, g.mh("axfer", cr)+fmt.Sprintf(",%d,%d,0,%d,0", aid, g.pick(1, 1+crH.Amount/7, crH.Amount), id))
+		}
+		if crOK && !crH.Frozen && !h.Frozen && h.Amount > 0 {
+			creatorW = append(creatorW, g.mh("axfer", id)+fmt.Sprintf(",%d,%d,0,%d,0", aid, g.pick(1, h.Amount), cr))
+		}
+		if crOK && clw != 0 && crH.Amount > 0 {
+			creatorW = append(creatorW, g.mh("axfer", clw)+fmt.Sprintf(",%d,%d,%d,%d,0", aid, g.pick(1, crH.Amount), cr, id))
+		}
+		if crOK && clw != 0 && h.Amount > 0 {
+			creatorW = append(creatorW, g.mh("axfer", clw)+fmt.Sprintf(",%d,%d,%d,%d,0", aid, g.pick(1, h.Amount), id, cr))
+		}
+		if frz != 0 {
+			other = append(other, g.mh("afrz", frz)+fmt.Sprintf(",%d,%d,%s", aid, id, lcB(!h.Frozen)))
+		}
+	}
+	if crOK && frz != 0 {
+		creatorW = append(creatorW, g.mh("afrz", frz)+fmt.Sprintf(",%d,%d,%s", aid, cr, lcB(!crH.Frozen)))
+	}
+	return
+}
+
+// genTouchFail: the "written earlier in this block, then written again by a group that FAILS" stream.  The group mixes, in a
+// random order, a params write and holding writes on one asset (preferably one created / touched by an accepted group of this
+// block, else an untouched one), payments / keyreg of accounts touched earlier in the block, and a failure: an overspending
+// or dead member at a random position, or a late group-level failure (wrong group hash, fee shortfall).  One in ten has no
+// failure and is accepted, so that later groups find its records in the block-level cow.
+func (g *lcGen) genTouchFail(v *lcView, force uint64) string {
+	var cand, touched []uint64
+	for _, aid := range v.assets {
+		cand = append(cand, aid)
+		if g.tAssets[aid] {
+			touched = append(touched, aid)
+		}
+	}
+	var ms []string
+	if force != 0 {
+		cand, touched = []uint64{force}, []uint64{force}
+	}
+	if len(cand) > 0 {
+		aid := cand[g.r.Intn(len(cand))]
+		if len(touched) > 0 && g.r.Chance(65) {
+			aid = touched[g.r.Intn(len(touched))]
+		}
+		reconf, cw, other := g.assetMembers(v, aid)
+		if len(reconf) > 0 && g.r.Chance(85) {
+			ms = append(ms, reconf[0])
+		}
+		for k := 0; k < 1+g.r.Intn(2) && len(cw) > 0; k++ {
+			ms = append(ms, cw[g.r.Intn(len(cw))])
+		}
+		if len(other) > 0 && g.r.Chance(40) {
+			ms = append(ms, other[g.r.Intn(len(other))])
+		}
+	}
+	// accounts touched earlier in the block: payments and key registrations
+	var ta []uint64
+	for id := uint64(1); id <= 6; id++ {
+		if g.tAccts[id] && g.balWP(v.acct[id]) >= g.minBal*(2+v.acct[id].TotalAssets)+20*g.minFee && v.acct[id].Status != basics.NotParticipating {
+			ta = append(ta, id)
+		}
+	}
+	for k := 0; k < g.r.Intn(3) || len(ms) == 0; k++ {
+		if len(ta) == 0 {
+			ms = append(ms, g.goodPay(v))
+			continue
+		}
+		a := ta[g.r.Intn(len(ta))]
+		switch g.r.Intn(3) {
+		case 0:
+			ms = append(ms, g.mh("keyreg", a)+",0,0,0,0,0,0,0")
+		case 1:
+			ms = append(ms, g.mh("keyreg", a)+fmt.Sprintf(",%d,%d,%d,%d,%d,%d,0", 40+a, 50+a, 60+a, g.round, g.round+500, 100))
+		default:
+			rcv := ta[g.r.Intn(len(ta))]
+			ms = append(ms, g.mh("pay", a)+fmt.Sprintf(",%d,%d,0", rcv, g.r.Intn(1000)))
+		}
+	}
+	// random order
+	for i := len(ms) - 1; i > 0; i-- {
+		j := g.r.Intn(i + 1)
+		ms[i], ms[j] = ms[j], ms[i]
+	}
+	tag := "1"
+	switch k := g.r.Intn(10); {
+	case k < 4: // an overspending member at a random position (mostly late, so that the writes happened)
+		bad := g.mh("pay", g.user()) + fmt.Sprintf(",%d,%d,0", g.user(), uint64(1)<<63)
+		pos := len(ms)
+		if g.r.Chance(35) {
+			pos = g.r.Intn(len(ms) + 1)
+		}
+		ms = append(ms[:pos], append([]string{bad}, ms[pos:]...)...)
+	case k < 6: // a member whose window has not opened yet
+		g.nonce++
+		bad := fmt.Sprintf("pay,%d,%d,%d,%d,%d,GRP,%d,1,0", g.user(), g.minFee, g.round+1, g.round+9, g.nonce, g.user())
+		pos := len(ms)
+		if g.r.Chance(35) {
+			pos = g.r.Intn(len(ms) + 1)
+		}
+		ms = append(ms[:pos], append([]string{bad}, ms[pos:]...)...)
+	case k < 8: // every member is applied, then the group id turns out not to be the hash of the members
+		tag = "3"
+	case k < 9: // every member is applied, then the fees turn out to be short
+		for i := range ms {
+			f := strings.Split(ms[i], ",")
+			f[2] = "0"
+			ms[i] = strings.Join(f, ",")
+		}
+	}
+	if len(ms) == 1 && tag == "1" {
+		tag = "0"
+	}
+	if len(ms) > 16 {
+		ms = ms[:16]
+	}
+	for i := range ms {
+		ms[i] = strings.Replace(ms[i], "GRP", tag, 1)
+	}
+	return "group " + strings.Join(ms, ";")
+}
+
+// scriptAliasSetup: an asset created in THIS block (all roles at the creator), a second holder, optionally a first transfer;
+// the touch-then-fail stream is then forced onto it.
+func (g *lcGen) scriptAliasSetup(v *lcView) []string {
+	u := g.funded(v, 2, 3000000)
+	if len(u) < 2 {
+		return nil
+	}
+	a, b := u[0], u[1]
+	aid := g.h.ev.VerifLcoreCounter() + 1
+	out := []string{
+		"group " + g.ph("acfg", a) + fmt.Sprintf(",0,%d,0,0,%d,%d,%d,%d", g.pick(1000, 1000000), a, a, a, a),
+		"group " + g.ph("axfer", b) + fmt.Sprintf(",%d,0,0,%d,0", aid, b),
+	}
+	if g.r.Chance(50) {
+		out = append(out, "group "+g.ph("axfer", a)+fmt.Sprintf(",%d,10,0,%d,0", aid, b))
+	}
+	g.forceAsset, g.forceN = aid, 3+g.r.Intn(3)
 	return out
 }
 
@@ -1276,9 +1510,16 @@ func TestVerifLcore(t *testing.T) {
 			p := h.ev.ConsensusParams()
 			g.round, g.minFee, g.minBal, g.level, g.unit = uint64(h.ev.Round()), p.MinFee().Raw, p.MinBalance, h.ev.VerifLcoreRewardsLevel(), p.RewardUnit
 			g.okTxns = nil
+			g.tAccts, g.tAssets, g.forceN = map[uint64]bool{}, map[uint64]bool{}, 0
 			ngroups := 6 + g.r.Intn(18)
+			tf := 6 // share of touch-then-fail groups
+			if profile == "c19" || profile == "c22" {
+				tf = 18
+			}
 			var script []string
-			if profile == "c22" && g.r.Chance(15) {
+			if ((profile == "c19" || profile == "c22") && g.r.Chance(35)) || g.r.Chance(8) {
+				script = g.scriptAliasSetup(h.view())
+			} else if profile == "c22" && g.r.Chance(15) {
 				script = g.scriptManagerDestroy(h.view())
 			} else if (profile == "c22" && g.r.Chance(60)) || (profile != "c22" && g.r.Chance(15)) {
 				script = g.scriptAssets(h.view())
@@ -1288,15 +1529,23 @@ func TestVerifLcore(t *testing.T) {
 			for i := 0; i < ngroups+len(script); i++ {
 				v := h.view()
 				var op string
-				if i < len(script) {
+				switch {
+				case i < len(script):
 					op = script[i]
-				} else {
+				case g.forceN > 0:
+					g.forceN--
+					op = g.genTouchFail(v, g.forceAsset)
+				case g.r.Chance(tf):
+					op = g.genTouchFail(v, 0)
+				default:
 					op = g.genGroup(v)
 				}
+				ctrBefore := h.ev.VerifLcoreCounter()
 				res := h.exec(op)
 				out.Emit(op, res)
 				if strings.HasPrefix(res, "ok ") && len(op) > 6 {
 					g.okTxns = append(g.okTxns, strings.Split(op[6:], ";")...)
+					g.noteTouched(op, ctrBefore)
 				}
 			}
 			res := h.exec("endblock")
